@@ -570,10 +570,11 @@ def _run(check: Check, tier: str, seed: int, replay: Optional[str], t0: float) -
     targets = [*modules] + ([own_model] if (LEAN / "CBV" / "Model" / f"{pid}.lean").exists() else [])
     # a table module whose translator failed concerns this property only if its Lean modules import those tables
     used = {m.rsplit(".", 1)[1] for m in import_closure(targets) if m.startswith("CBV.Gen.")}
-    for stem, tb in sorted(TABLE_FAILURES.items()):
-        if stem in used and stem != "Tables":
-            red.append(f"translator of CBV/Gen/{stem}.lean could not translate the current source: " + tb[-600:])
     built, out = build(targets)
+    if not built:  # tables that could not be produced matter only when something that is built here names them
+        for stem, tb in sorted(TABLE_FAILURES.items()):
+            if stem in used and stem != "Tables":
+                red.append(f"translator of CBV/Gen/{stem}.lean could not translate part of the current source: " + tb[-600:])
     detail["build_ok"] = built
     if not built:
         errs = re.findall(r"^error: (.*)$", out, re.M)[:8]
